@@ -2,6 +2,7 @@ package c19
 
 import (
 	"fmt"
+	"math/rand"
 	"strings"
 
 	"seehuhn.de/go/pdf"
@@ -73,6 +74,13 @@ func historyDoc(seed int64, history string) (*shared.Doc, error) {
 
 // makeDoc produces the document of a read-side scenario.
 func makeDoc(sp docSpec) (*shared.Doc, error) {
+	if sp.Special == "bigobjstm" {
+		d, err := bigObjStmDoc(sp.Seed)
+		if err != nil {
+			return nil, core.Infra("big object stream document: %v", err)
+		}
+		return d, nil
+	}
 	if sp.Special == "boundary" {
 		d, err := boundaryDoc(sp.Seed)
 		if err != nil {
@@ -170,4 +178,48 @@ func boundaryDoc(seed int64) (*shared.Doc, error) {
 		}
 	}
 	return nil, fmt.Errorf("stream keywords could not be placed")
+}
+
+// bigObjStmDoc writes (with the real Writer) one object stream of 160
+// dictionaries of about 100 bytes each (hardly compressible: the encoded
+// stream is several kB, the decoded one far longer than the scanner's
+// 1024-byte buffer).  The scenario fetches only six of the members: the
+// first, three in the middle (the scanner has to skip to their offsets with
+// Discard), the last but one and the last.
+func bigObjStmDoc(seed int64) (*shared.Doc, error) {
+	rng := rand.New(rand.NewSource(seed))
+	sink := &shared.MemSink{}
+	w, err := pdf.NewWriter(sink, pdf.V1_7, nil)
+	if err != nil {
+		return nil, err
+	}
+	doc := &shared.Doc{Seed: seed, Opt: shared.DocOptions{Version: pdf.V1_7, XRefStream: true, ObjStm: true}}
+	pages := w.Alloc()
+	if err := w.Put(pages, pdf.Dict{"Type": pdf.Name("Pages"), "Kids": pdf.Array{}, "Count": pdf.Integer(0)}); err != nil {
+		return nil, err
+	}
+	doc.Pages = pages
+	doc.Objects = append(doc.Objects, shared.DocObject{Ref: pages, Kind: "dict", Start: -1, End: -1})
+	const members = 160
+	refs := make([]pdf.Reference, members)
+	objs := make([]pdf.Object, members)
+	for i := range refs {
+		refs[i] = w.Alloc()
+		key := make([]byte, 36)
+		rng.Read(key)
+		objs[i] = pdf.Dict{"I": pdf.Integer(i), "Key": pdf.String(fmt.Sprintf("%x", key)), "N": pdf.Name(fmt.Sprintf("member#%d", i))}
+	}
+	if err := w.WriteCompressed(refs, objs...); err != nil {
+		return nil, err
+	}
+	for _, i := range []int{0, 40, 79, 120, members - 2, members - 1} {
+		doc.Objects = append(doc.Objects, shared.DocObject{Ref: refs[i], Kind: "dict", InObjStm: true, Start: -1, End: -1})
+	}
+	w.GetMeta().Catalog.Pages = pages
+	w.GetMeta().Info = nil
+	if err := w.Close(); err != nil {
+		return nil, err
+	}
+	doc.Bytes = sink.Bytes()
+	return doc, nil
 }
